@@ -141,6 +141,9 @@ class FaultSuite:
                 parts = f.split("|")
                 name = parts[0]
                 self.stats["injections"] += 1
+                if parts[1] == "hang":
+                    prop.append({"case": narrow(c, name), "impl": f, "spec": "", "model": "", "detail": "fault %s: the run did not finish within the watchdog (a call or the close hangs)" % name})
+                    break
                 if parts[1] == "panic":
                     prop.append({"case": narrow(c, name), "impl": f, "spec": "", "model": "", "detail": "fault %s: the call panicked" % name})
                     break
@@ -167,8 +170,12 @@ def shrink(case, workdir, budget=50):
     fixed, body = toks[:2], toks[2:]
     limit = parts[1]
 
+    name = parts[2] if len(parts) > 2 else None
+
     def fails(b):
         c = "%s # %s" % (" ".join(fixed + b), limit)
+        if name:
+            c += " # " + name
         s = FaultSuite([c])
         corr, prop = s.execute(workdir, tag="sh")
         for p in prop:
